@@ -57,7 +57,8 @@ def s_groups(draw, d, N, allow_float=True, sites=None):
             if len(set(g["op_kinds"])) == 1:
                 g["op_kinds"][0] = "float" if g["op_kinds"][0] == "int" else "int"
         else:
-            g["ops"] = [draw(ancgen.control_op_spec(d if not sites else (sites[site] if isinstance(sites, list) else 2)))
+            g["ops"] = [draw(ancgen.control_op_spec(d if not sites else (sites[site] if isinstance(sites, list) else 2),
+                                                    invertible=bool(sites)))
                         for _ in range(draw(st.integers(1, 3)))]
         groups.append(g)
     return groups
